@@ -208,7 +208,7 @@ inductive PErr
   | opl
   /-- `osmium::invalid_location` (escapes from `string_to_location_coordinate`) -/
   | location
-  /-- `std::length_error` from the builders (tag key / value / role > 1024 bytes) -/
+  /-- `std::length_error` from the builders (user name / tag key / value / role > 1024 bytes) -/
   | length
   /-- model fuel exhausted (cannot happen: every loop iteration consumes a byte) -/
   | fuel
@@ -407,6 +407,12 @@ def attrLoop {σ : Type} (field : σ → UInt8 → Bytes → Except PErr (σ × 
 
 def loopFuel (s : Bytes) : Nat := s.length + 16
 
+/-- `builder.set_user(user)` after the attribute loop (osm_object_builder.hpp, repair bc6b907):
+    `std::length_error` for a user name longer than `max_osm_string_length`.  (Before the repair
+    the length was only asserted and, with NDEBUG, truncated to 16 bits: DESIGN.md F13c.) -/
+def setUserCheck (user : Bytes) : Except PErr Unit :=
+  if user.length > maxString then .error .length else .ok ()
+
 /-- tags are parsed after the loop from `tags_begin` -/
 def finishTags (tb : Option Bytes) : Except PErr (List Tag) :=
   match tb with
@@ -422,6 +428,7 @@ def metaOf (id : Int) (st : ObjSt) (tags : List Tag) : Meta :=
 def pObject (k : Kind) (s : Bytes) : Except PErr Object :=
   bindE (pId s) fun (id, s1) =>
   bindE (attrLoop (objField k) (loopFuel s1) {} s1) fun st =>
+  bindE (setUserCheck (st.user.getD [])) fun _ =>
   bindE (finishTags st.tagsBegin) fun tags =>
   match k with
   | .node =>
@@ -494,6 +501,7 @@ def csField (st : CsSt) (c : UInt8) (s : Bytes) : Except PErr (CsSt × Bytes) :=
 def pChangeset (s : Bytes) : Except PErr Object :=
   bindE (pU32 s) fun (id, s1) =>
   bindE (attrLoop csField (loopFuel s1) {} s1) fun st =>
+  bindE (setUserCheck (st.user.getD [])) fun _ =>
   bindE (finishTags st.tagsBegin) fun tags =>
   .ok (.changeset id (st.createdAt.getD 0) (st.closedAt.getD 0) (st.numChanges.getD 0) (st.numComments.getD 0)
         (st.uid.getD 0 : Nat) (st.user.getD []) ⟨st.blx, st.bly⟩ ⟨st.trx, st.try_⟩ tags [])
